@@ -147,7 +147,8 @@ Section WithV.
       - rewrite Hsh, <- Hl. lia.
       - rewrite Hg. cbn [bind]. rewrite Hchk. cbn [bind]. eauto. }
     exists ws. split; [reflexivity|]. split; [exact Hws|].
-    destruct (mapM_inv _ _ _ Hws) as [Hlen _]. rewrite Hlen, combine_length, seq_length, Nat.min_id. exact Hl.
+    destruct (mapM_inv _ _ _ Hws) as [Hlen _]. etransitivity; [exact Hlen|].
+    rewrite combine_length, seq_length, Nat.min_id. exact Hl.
   Qed.
 End WithV.
 
